@@ -102,3 +102,28 @@ func opSuggest(args string) string {
 func init() {
 	ops["suggest"] = opSuggest
 }
+
+// findns <frame> <cls> | frame~cls;frame~cls...   -> base.FindDefinedClassFrame with that DefinedClassTable
+func opFindNS(args string) string {
+	head, tbl, _ := strings.Cut(args, " | ")
+	hf := strings.Split(head, " ")
+	for k := range base.DefinedClassTable {
+		delete(base.DefinedClassTable, k)
+	}
+	for _, e := range strings.Split(strings.TrimSpace(tbl), ";") {
+		if e == "" {
+			continue
+		}
+		f := strings.Split(e, "~")
+		base.SetDefinedClass(f[0], f[1])
+	}
+	frame := hf[0]
+	if frame == "-" {
+		frame = ""
+	}
+	return "[" + base.FindDefinedClassFrame(frame, hf[1]) + "]"
+}
+
+func init() {
+	ops["findns"] = opFindNS
+}
